@@ -119,9 +119,9 @@ def run_case(case) -> Outcome:
     # ---- twin 1: consistent renaming of one scope-local label
     cands = [s for s in sites if s[1] not in banned and (s[2] is None or f"{s[2]}.{s[1]}" not in banned)]
     if cands:
-        path, name, scope_name = rng.choice(cands)
+        path, name, scope_name, parent_path = rng.choice(cands)
         new = "lb_renamed"
-        twin = twins.rename_in_scope(case_ir, path, name, new, scope_name)
+        twin = twins.rename_in_scope(case_ir, path, name, new, scope_name, parent_path)
         tsrc, tr = asm(twin)
         out.labels.append("twin:rename")
         if not tr.accepted:
@@ -145,7 +145,7 @@ def run_case(case) -> Outcome:
     # ---- twin 3: a sibling scope that re-defines an existing (inner) label name
     inner = [s for s in sites if s[0] != ()]
     if inner:
-        _, name, _ = rng.choice(inner)
+        _, name, _, _ = rng.choice(inner)
         twin = copy.deepcopy(case_ir) + [{"k": "block", "b": [{"k": "label", "n": name}]}]
         tsrc, tr = asm(twin)
         out.labels.append("twin:sibling-duplicate")
@@ -154,7 +154,7 @@ def run_case(case) -> Outcome:
         # ---- oracle 3: out-of-scope reference (a plain inner name, or the export of a named scope nested in a block)
         nested_named = [s_ for s_ in sites if s_[2] is not None and len(s_[0]) >= 2]
         if nested_named and rng.random() < 0.6:
-            _, nm, scn = rng.choice(nested_named)
+            _, nm, scn, _ = rng.choice(nested_named)
             name = f"{scn}.{nm}"
             out.labels.append("probe:qualified")
         probe = copy.deepcopy(case_ir) + [{"k": "data", "d": "dl", "es": [["id", name]]}]
